@@ -283,13 +283,17 @@ export class DiplomatBuf {
 
         const ptr = wasm.diplomat_alloc(byteLength, 4);
 
-        const destination = new Uint32Array(wasm.memory.buffer, ptr, strings.length * 2);
-
         const stringsAlloc = [];
 
         for (let i = 0; i < strings.length; i++) {
             stringsAlloc.push(encodeStr(wasm, strings[i]));
+        }
 
+        // Only look at the memory once every string is allocated: an allocation may grow the
+        // wasm memory, which detaches every view created before it.
+        const destination = new Uint32Array(wasm.memory.buffer, ptr, strings.length * 2);
+
+        for (let i = 0; i < strings.length; i++) {
             destination[2 * i] = stringsAlloc[i].ptr;
             destination[(2 * i) + 1] = stringsAlloc[i].size;
         }
